@@ -256,7 +256,7 @@ def _z3v():
     return z3.get_version_string()
 
 
-TRUSTED_COMMON = ['CPython semantics as encoded by pyvc (DESIGN.md section 3)', 'z3 / cvc5', 'prelude axioms of pyvc/theory.py and pyvc/comps.py (mirrored in lean/PreludeSound.lean; evaluated on small lists by selftest)',
+TRUSTED_COMMON = ['CPython semantics as encoded by pyvc (DESIGN.md section 3)', 'z3 / cvc5', 'prelude axioms of pyvc/theory.py and pyvc/comps.py (each stated and proved as a Lean theorem in lean/PreludeSound.lean, compiled in the thorough tier); residual trust: Python list operation = the Lean List function of the same meaning',
                   'the VC generator pyvc itself (mitigated by seeded mutants and canaries)']
 ASSUMPTIONS = ['Python int = mathematical integer, float = mathematical real (no rounding modelled)',
                'list elements / dict keys are NaN-free atoms with reflexive equality (a float NaN object used as a value is covered only by engine R)',
